@@ -12,17 +12,17 @@ CONSTANTS
   Sentences <- RealSentences
   ResetMin = 1800
   DefaultVer = 1
-  Family = "swap"
+  Family = "version"
   EmitAt = 0
-  MaxOps = 6
+  MaxOps = 5
   StakeVecs <- Vecs5Lone
   Amounts = {1}
   DTs = {1}
-  Jumps <- JumpsSwap
-  GenVersions = {0, 2}
-  VSet = 0
-  MaxHeight = 260
-  FocusVals = {2, 3}
+  Jumps <- JumpsVer
+  GenVersions = {2, 3}
+  VSet = 1
+  MaxHeight = 2300
+  FocusVals = {2}
 VIEW GView
 INIT GInit
 NEXT GNextC
